@@ -405,3 +405,60 @@ func c09KeyPairs() fw.Result {
 	a.sample(map[string]any{"sql": sql, "pairs": len(collisionPairs())})
 	return a.result()
 }
+
+// c04ManualTrigger: TriggerWindow() (the manual flush) with several groups open at once: every group is reported
+// with its own rows, each row once. Session windows (one open session per key: one batch per key), tumbling and
+// sliding processing-time windows and a counting window with partial batches; all assignments of 6 rows to 3 keys.
+func c04ManualTrigger() fw.Result {
+	a := newAcc("C04", "det-groupby-manual-trigger")
+	kinds := map[string]string{
+		"session":  "SELECT k, count(*) AS c, collect(id) AS ids FROM stream GROUP BY k, SessionWindow('30s')",
+		"tumbling": "SELECT k, count(*) AS c, collect(id) AS ids FROM stream GROUP BY k, TumblingWindow('30s')",
+		"sliding":  "SELECT k, count(*) AS c, collect(id) AS ids FROM stream GROUP BY k, SlidingWindow('30s','30s')",
+	}
+	for _, kind := range []string{"session", "tumbling", "sliding"} {
+		sql := kinds[kind]
+		sequences(6, 3, func(seq []int) {
+			want := map[string][]int{}
+			var rows []Row
+			for i, x := range seq {
+				k := []string{"a", "b", "c"}[x]
+				rows = append(rows, Row{"id": i + 1, "k": k})
+				want[k] = append(want[k], i+1)
+			}
+			r := detExec(sql, detOpts{Eager: true, Horizon: 100 * vtime.Millisecond}, func(e *Env) {
+				for _, row := range rows {
+					e.Emit(copyVal(row).(map[string]any))
+				}
+				e.S.TriggerWindow()
+				sched.Quiesce()
+			})
+			a.r.Evaluations++
+			a.r.States++
+			a.r.Nontrivial++
+			a.r.Transitions += int64(r.Steps)
+			cs := map[string]any{"sql": sql, "rows": rows, "then": "TriggerWindow()"}
+			if r.ExecErr != "" || r.Status != sched.StatusOK {
+				a.fail("C04|manual-trigger|exec|"+kind, r.ExecErr+" "+r.Status.String()+" "+firstLine(r.Panic), cs, nil, nil)
+				return
+			}
+			got := map[string][]int{}
+			var dup []string
+			for _, b := range r.Batches {
+				for _, row := range b {
+					k, _ := row["k"].(string)
+					if _, seen := got[k]; seen {
+						dup = append(dup, k)
+					}
+					got[k] = append(got[k], sortedInts(idList(row["ids"]))...)
+				}
+			}
+			a.outcome(fmt.Sprint(got))
+			if fmt.Sprint(got) != fmt.Sprint(want) || len(dup) > 0 {
+				a.fail("C04|manual-trigger|"+kind+"|groups-wrong", fmt.Sprintf("%s, then TriggerWindow(): groups delivered %v (reported twice: %v), reference %v", sql, got, dup, want), cs, want, got)
+			}
+		})
+	}
+	a.sample(map[string]any{"queries": kinds, "rows": 6, "keys": 3})
+	return a.result()
+}
